@@ -1159,8 +1159,8 @@ impl ConfigState {
         Ok(())
     }
 
-    /// - Remove old certificate from certificates, using the old fingerprint
     /// - calculate the new fingerprint
+    /// - Remove old certificate from certificates, using the old fingerprint
     /// - insert the new certificate with the new fingerprint as key
     /// - check that the new entry is present in the certificates hashmap
     fn replace_certificate(&mut self, replace: &ReplaceCertificate) -> Result<(), StateError> {
@@ -1170,19 +1170,24 @@ impl ConfigState {
                 .map_err(|decode_error| StateError::RemoveCertificate(decode_error.to_string()))?,
         );
 
-        self.certificates
-            .get_mut(&replace_address)
-            .ok_or(StateError::NotFound {
+        if !self.certificates.contains_key(&replace_address) {
+            return Err(StateError::NotFound {
                 kind: ObjectKind::Certificate,
                 id: replace.address.to_string(),
-            })?
-            .remove(&old_fingerprint);
+            });
+        }
 
+        // parse the new certificate before removing the old one: a rejected
+        // replacement must leave the old certificate in place
         let new_fingerprint = Fingerprint(
             calculate_fingerprint(replace.new_certificate.certificate.as_bytes()).map_err(
                 |fingerprint_err| StateError::ReplaceCertificate(fingerprint_err.to_string()),
             )?,
         );
+
+        self.certificates
+            .get_mut(&replace_address)
+            .map(|certs| certs.remove(&old_fingerprint));
 
         self.certificates
             .get_mut(&replace_address)
